@@ -1,4 +1,5 @@
 import Mieru.Proofs.Arq
+import Mieru.Proofs.Duplex
 import Mieru.Gen.Consts
 import Mieru.Gen.Facts
 /-!
@@ -109,6 +110,71 @@ theorem udp_can_complete {W : Nat} (hW : 0 < W) {s : St} (h : Reach W s) :
     · have := (reach_inv h).order
       exact ⟨s, Steps.refl s, by omega, rfl⟩
 
+/-! ## The open handshake: two directions coupled (`Mieru.Model.Duplex`)
+
+Segment 0 of each direction is the session-control segment; the server queues its open response only
+after the open request arrived, and the client defers data until the open response arrived. -/
+
+/-- Safety carries over to the coupled system: each direction delivers a prefix of what was queued. -/
+theorem duplex_delivery_is_prefix {W : Nat} {d : Duplex.St} (h : Duplex.Reach W d) :
+    d.c.delivered = d.c.segs.take d.c.nextRecv ∧ d.s.delivered = d.s.segs.take d.s.nextRecv :=
+  ⟨(udp_delivery_is_prefix (Duplex.reach_components h).1).1, (udp_delivery_is_prefix (Duplex.reach_components h).2).1⟩
+
+/-- The client never transmits data (a segment numbered ≥ 1) before it has seen the open response. -/
+theorem data_deferred_until_established {W : Nat} {d : Duplex.St} (h : Duplex.Reach W d) :
+    2 ≤ d.c.qLo → Duplex.established d := by
+  induction h with
+  | init => intro h; simp [Duplex.init, Arq.init] at h
+  | @step d0 e0 _ st ih =>
+    cases st with
+    | cStep c' hs defer =>
+      intro h2
+      by_cases hq : d0.c.qLo < c'.qLo
+      · by_cases h1 : 1 ≤ d0.c.qLo
+        · exact defer hq h1
+        · -- qLo was 0: one step raises it by at most one
+          exfalso
+          have : c'.qLo ≤ d0.c.qLo + 1 := by
+            cases hs <;> simp_all [Arq.recv] <;> try omega
+            all_goals (rw [(Arq.drain_mono _ _).2.2.1]; simp)
+          simp at h2; omega
+      · exact ih (by simp at h2; omega)
+    | sStep s' hs _ =>
+      intro h2
+      have := ih h2
+      unfold Duplex.established at *
+      have := (Arq.step_mono hs).1
+      simp; omega
+
+/-- Handshake progress: whichever datagrams were lost so far (open request, open response, acks),
+    from every reachable state in which the client has queued its open request there is a finite run
+    of protocol steps after which the server has the session and the client is established. -/
+theorem udp_open_handshake_progress {W : Nat} (hW : 0 < W) {d : Duplex.St} (h : Duplex.Reach W d)
+    (hreq : d.c.segs ≠ []) :
+    ∃ e, Duplex.Steps W d e ∧ Duplex.serverHasSession e ∧ Duplex.established e := by
+  -- phase 1: the open request reaches the server
+  have p1 : ∃ e, Duplex.Steps W d e ∧ Duplex.serverHasSession e := by
+    by_cases h0 : d.c.nextRecv = 0
+    · obtain ⟨e, st, hs, _, _⟩ := Duplex.open_request_delivered hW h h0 hreq
+      exact ⟨e, st, hs⟩
+    · exact ⟨d, Duplex.Steps.refl d, by unfold Duplex.serverHasSession; omega⟩
+  obtain ⟨e1, st1, hs1⟩ := p1
+  have r1 := Duplex.reach_steps h st1
+  -- phase 2: the open response reaches the client
+  by_cases h0 : e1.s.nextRecv = 0
+  · obtain ⟨e2, st2, he, hc⟩ := Duplex.open_response_delivered hW r1 hs1 h0
+    refine ⟨e2, Duplex.steps_trans st1 st2, ?_, he⟩
+    unfold Duplex.serverHasSession at *; rw [hc]; exact hs1
+  · exact ⟨e1, st1, hs1, by unfold Duplex.established; omega⟩
+
+/-- After the handshake, client data flows: every run of the client→server direction is a run of
+    the coupled system, so `udp_no_stuck_state` applies to it unchanged. -/
+theorem udp_data_flows_after_handshake {W : Nat} (hW : 0 < W) {d : Duplex.St} (h : Duplex.Reach W d)
+    (he : Duplex.established d) (hu : d.c.nextRecv < d.c.segs.length) :
+    ∃ e, Duplex.Steps W d e ∧ d.c.nextRecv < e.c.nextRecv := by
+  obtain ⟨c', st, hadv, _⟩ := udp_no_stuck_state hW (Duplex.reach_components h).1 hu
+  exact ⟨⟨c', d.s⟩, Duplex.lift_c_established st d.s he, hadv⟩
+
 /-- Soundness of the correspondence: every history the executable acceptor accepts (that is what
     the harness feeds it: the events observed on real endpoints) ends in a state satisfying the
     safety invariant — the model's receiver has delivered a prefix of what the sender queued. -/
@@ -149,6 +215,11 @@ example : ∃ s, Reach 2 s ∧ s.delivered = [7] ∧ s.segs = [7, 8] ∧ s.nextR
   have r5 : Reach 2 s5 := Reach.step r4 (Step.retransmit s4 0 7 (by decide) (by decide))
   have r6 := Reach.step r5 (Step.recvData s5 ⟨0, 7⟩ (by decide))
   exact ⟨_, r6, by decide, by decide, by decide⟩
+
+/-- the coupled system is not vacuous: a handshake with a lost open request completes -/
+example : ∃ d, Duplex.Reach 2 d ∧ d.c.segs ≠ [] ∧ d.c.nextRecv = 0 := by
+  let d1 : Duplex.St := { Duplex.init with c := { Arq.init with segs := [1] } }
+  exact ⟨d1, Duplex.Reach.step Duplex.Reach.init (Duplex.Step.cStep Duplex.init _ (Step.write Arq.init 1) (by intro h; simp [Duplex.init, Arq.init] at h)), by decide, by decide⟩
 
 example : (acceptAll init [.write 7, .send 0 7, .send 0 7, .deliver 0 7, .deliver 0 7, .ack 1, .ackIn 1]).isSome = true := by decide
 /-- an ack ahead of receipt, a retransmission with different content and a skipped sequence number
